@@ -17,12 +17,12 @@ if [ -n "$TESTS" ]; then
 import json, xml.etree.ElementTree as ET
 stable = set(json.load(open("/root/.vp/BASELINE.json"))["stable_pass"])
 files = "$TESTS".split()
-mods = {f[:-3].replace("/", ".") for f in files}
+mods = {(f[:-3] if f.endswith(".py") else f).replace("/", ".") + "." for f in files}
 passed = set()
 for tc in ET.parse("/tmp/seed_$ID.junit.xml").getroot().iter("testcase"):
     if not any(ch.tag in ("failure", "error", "skipped") for ch in tc):
         cn = tc.get("classname"); mod, cls = cn.rsplit(".", 1); passed.add(f"{mod}.{cls}::{tc.get('name')}")
-want = {t for t in stable if t.split("::")[0].rsplit(".", 1)[0] in mods}
+want = {t for t in stable if any(t.startswith(m) for m in mods)}
 print(f"stable-pass tests in these files: {len(want)}, not passing with the patch: {sorted(want - passed)}")
 PY
 )
